@@ -1156,6 +1156,17 @@ pub fn is_ident_nint_data_type(cddl: &CDDL, ident: &Identifier) -> bool {
   })
 }
 
+/// Whether an occurrence indicator admits zero occurrences of its entry: `?`,
+/// `*`, and `n*m` written with a lower bound of zero (`0*1`, `*3`); RFC 8610
+/// section 3.2
+pub(crate) fn occurrence_admits_absence(occurrence: Option<&Occur>) -> bool {
+  match occurrence {
+    Some(Occur::Optional { .. }) | Some(Occur::ZeroOrMore { .. }) => true,
+    Some(Occur::Exact { lower, .. }) => lower.unwrap_or(0) == 0,
+    _ => false,
+  }
+}
+
 /// Numbers are defined as `number = int / float`
 /// Therefore, this enum represents which type (or both) is allowed in a given position
 #[derive(Copy, Clone, Debug, PartialEq, Eq)]
